@@ -44,7 +44,7 @@ def _work(idx):
         for hp in opts.get("history", []):
             # unrelated problems built and solved earlier in the same interpreter (C14)
             hb = B.build(hp)
-            hs = B.make_solver(hb)
+            hs = B.make_solver(hb, **opts.get("history_solver_kw", {}))
             with B.silence():
                 hs.solve()
         b, s = A.initialized_solver(p, build_kw=opts.get("build_kw"), **opts.get("solver_kw", {}))
